@@ -714,7 +714,8 @@ def snapshot(obj):
 
     Uses only public pydantic API (`__fields__`, attribute access, `.dict()`).
     """
-    return (canon(observe(obj)), _walk(obj))
+    pl = observe(obj)
+    return (canon(pl), _walk(obj), pl)
 
 
 def _walk(v):
